@@ -6,10 +6,10 @@ MT = "rl4co/envs/routing/mtvrp/env.py"
 
 def register(ex):
     p, c = ex.probe, ex.cmp_probe
-    p("mtvrpMaskTwCmp", "Cmp", ".lt", "mtvrp/env.py:get_action_mask  `arrival_time < late_tw` (customer deadline)",
+    p("mtvrpMaskTwCmp", "Cmp", ".le", "mtvrp/env.py:get_action_mask  `arrival_time <= late_tw` (customer deadline)",
       c(MT, "MTVRPEnv.get_action_mask", "arrival_time", "late_tw"))
-    p("mtvrpMaskDepotCmp", "Cmp", ".lt",
-      "mtvrp/env.py:get_action_mask  `(max(arrival, early) + service + d_j0 / speed) * ~open_route < late_tw[..., 0:1]`",
+    p("mtvrpMaskDepotCmp", "Cmp", ".le",
+      "mtvrp/env.py:get_action_mask  `(max(arrival, early) + service + d_j0 / speed) * ~open_route <= late_tw[..., 0:1]`",
       c(MT, "MTVRPEnv.get_action_mask",
         "(torch.max(arrival_time, early_tw) + td['service_time'] + d_j0 / td['speed']) * ~td['open_route']",
         "late_tw[..., 0:1]"))
@@ -32,5 +32,5 @@ def register(ex):
       "mtvrp/env.py:check_solution_validity  `curr_time <= time_windows[next_node][1]`",
       c(MT, "MTVRPEnv.check_solution_validity", "curr_time", "gather_by_index(td['time_windows'], next_node)[..., 1]"))
     p("mtvrpCheckCapCmp", "Cmp", ".le",
-      "mtvrp/env.py:check_solution_validity._check_c1  `used_cap <= vehicle_capacity`",
-      c(MT, "MTVRPEnv.check_solution_validity", "used_cap", "td['vehicle_capacity']"))
+      "mtvrp/env.py:check_solution_validity._check_c1  `used_cap <= vehicle_capacity.squeeze(-1)`",
+      c(MT, "MTVRPEnv.check_solution_validity", "used_cap", "td['vehicle_capacity'].squeeze(-1)"))
